@@ -348,8 +348,10 @@ theorem presp_inv (cfg : RCfg) (s : PState)
           omega
     | none =>
       -- no live state: NoOp unless this is a first response and at least one attempt is configured
-      have hnoop : ∃ b', pmon cfg.attempts b ⟨seq, first, true, POut.noop⟩ = some b' ∧ PInv s b' := by
-        refine ⟨erase seq b, by simp [pmon], ?_⟩
+      have hnoop : (first && decide (1 ≤ cfg.attempts)) = false →
+          ∃ b', pmon cfg.attempts b ⟨seq, first, true, POut.noop⟩ = some b' ∧ PInv s b' := by
+        intro hc
+        refine ⟨erase seq b, by simp [pmon, hc], ?_⟩
         apply pinv_update s s b _ h seq
         · rfl
         · intro k _; rfl
@@ -358,7 +360,7 @@ theorem presp_inv (cfg : RCfg) (s : PState)
           exact absurd hlive (cacheGet_none s seq hg e hl)
       by_cases hf : first = true
       · by_cases hA : cfg.attempts < 1
-        · simpa [hf, hA] using hnoop
+        · simpa [hf, hA] using hnoop (by simp [hf]; omega)
         · have h1 : 1 ≤ cfg.attempts := by omega
           obtain ⟨v, hv, _, hv2⟩ := pmon_retry cfg.attempts b seq first cfg.cooldown (Or.inl ⟨hf, h1⟩)
           have hv2 := hv2 ⟨hf, h1⟩
@@ -385,7 +387,7 @@ theorem presp_inv (cfg : RCfg) (s : PState)
               simp only [Option.getD_some]
               omega
       · have hf' : first = false := by simpa using hf
-        simpa [hf'] using hnoop
+        simpa [hf'] using hnoop (by simp [hf'])
   · have hr' : inRange cfg status = false := by simpa using hr
     simp only [hr', Bool.false_eq_true, if_false]
     refine ⟨erase seq b, by simp [pmon], ?_⟩
@@ -424,7 +426,9 @@ theorem pmon_frame (A : Int) (s : Key) (b b' : AMap Nat) (e : PEvent)
     · cases hm; exact lookup_erase_other _ _ _ hs
     · cases hm
   · split at hm
-    · cases hm; exact lookup_erase_other _ _ _ hs
+    · split at hm
+      · cases hm
+      · cases hm; exact lookup_erase_other _ _ _ hs
     · split at hm
       · cases hm; exact lookup_insert_other _ _ _ _ hs
       · split at hm
@@ -443,8 +447,12 @@ theorem pmon_potential (A : Int) (s : Key) (b b' : AMap Nat) (e : PEvent)
       cases ho : e.out with
       | noop =>
         simp only [ho] at hm
-        cases hm
-        simp [lookup_erase_same, countRetryHdr, ho]
+        by_cases hc : (e.first && decide (1 ≤ A)) = true
+        · simp only [hc, if_true] at hm
+          cases hm
+        · simp only [hc, Bool.false_eq_true, if_false] at hm
+          cases hm
+          simp [lookup_erase_same, countRetryHdr, ho]
       | retry n =>
         simp only [ho] at hm
         by_cases hf : (e.first && decide (1 ≤ A)) = true
